@@ -60,6 +60,8 @@ func main() {
 		cmdBlockMap(fs, os.Args[2:])
 	case "cache":
 		cmdCache(fs, os.Args[2:])
+	case "probe":
+		cmdProbe(fs, os.Args[2:])
 	case "simpleconc":
 		cmdSimpleConc(fs, os.Args[2:])
 	case "kvsconc":
